@@ -5,7 +5,7 @@ import Nsq.Model.ChanInv
 /-! Driver for engine E2 (nsqd / topic / channel / client state machine).
 One operation per input line, one canonical answer line out (DESIGN Appendix B). -/
 open Nsq Nsq.Line
-open Nsq.Model.Chan (Chan Client Entry Out Conf Loc findC isInflight isDeferred)
+open Nsq.Model.Chan (Chan Client Entry Out Conf Loc Env findC findE isInflight isDeferred)
 open Nsq.Model.ChanNsqd
 
 def nat? (s : String) : Option Nat := s.toNat?
@@ -34,9 +34,9 @@ def b (x : Bool) : String := if x then "1" else "0"
 def dumpChan (c : Chan) : String :=
   let es := sortBy (fun (a b : Entry) => a.id < b.id) c.msgs
   let infl := es.filterMap (fun e => match e.loc with
-    | .inflight k p d => some s!"{e.id}:{k}:{Nsq.Model.Chan.wireAttempts e.att}:{p}:{d}" | _ => none)
+    | .inflight k p d => some s!"{e.id}:{k}:{Nsq.Model.Chan.wireAttempts e.att}:{p}:{d}:{e.env.ts}:{e.env.body}" | _ => none)
   let defd := es.filterMap (fun e => match e.loc with
-    | .deferred p => some s!"{e.id}:{Nsq.Model.Chan.wireAttempts e.att}:{p}" | _ => none)
+    | .deferred p => some s!"{e.id}:{Nsq.Model.Chan.wireAttempts e.att}:{p}:{e.env.ts}:{e.env.body}" | _ => none)
   let cls := (sortBy (fun (a b : Client) => a.conn < b.conn) c.clients).map (fun cl =>
     s!"{cl.conn}:{cl.rdy}:{cl.inFlight}:{cl.msgCount}:{cl.finCount}:{cl.reqCount}:{b cl.closing}")
   s!"depth={c.memLen + c.dqLen} inflight=[{joinSp infl}] deferred=[{joinSp defd}] mc={c.messageCount} rq={c.requeueCount} to={c.timeoutCount} paused={b c.paused} clients=[{joinSp cls}]"
@@ -92,8 +92,8 @@ def rchanCheck (eph memq mem dq mc q ifs dfs cls : String) : String :=
     | _ => none)
   match memq.toNat?, mem.toNat?, dq.toNat?, mc.toNat? with
   | some memq, some mem, some dq, some mc =>
-    let msgs : List Entry := qids.map (fun i => ⟨i, 0, .queued⟩) ++ ife.map (fun p => ⟨p.1, 0, .inflight p.2 0 0⟩)
-      ++ dids.map (fun i => ⟨i, 0, .deferred 0⟩)
+    let msgs : List Entry := qids.map (fun i => { id := i, att := 0, loc := .queued }) ++
+      ife.map (fun p => { id := p.1, att := 0, loc := .inflight p.2 0 0 }) ++ dids.map (fun i => { id := i, att := 0, loc := .deferred 0 })
     let bad : List String :=
       (if Nsq.Model.Chan.nodupB (msgs.map (·.id)) then [] else ["an id occurs in two places"]) ++
       (if mem == qids.length then [] else ["memory queue length"]) ++
@@ -106,6 +106,33 @@ def rchanCheck (eph memq mem dq mc q ifs dfs cls : String) : String :=
         (if c.2.2 ≥ 0 && c.2.1 ≥ 0 then [] else [s!"client {c.1} negative counter"]) ++ acc) []
     if bad.isEmpty then "rchan ok" else "rchan BAD " ++ "; ".intercalate bad
   | _, _, _, _ => "bad-op"
+
+def intList (s : String) : Option (List Int) :=
+  if s = "-" then some [] else (s.splitOn ",").mapM (·.toInt?)
+
+def envs? (tss bodies : String) : Option (List Env) :=
+  match intList tss, natList bodies with
+  | some ts, some bs => some ((ts.zip bs).map (fun p => ⟨p.1, p.2⟩))
+  | _, _ => none
+
+/-- the envelope the model holds for message `id` on the channel connection `k` is subscribed to -/
+def envOfConn (s : State) (k id : Nat) : Env :=
+  match findS s.subs k with
+  | none => {}
+  | some sb => match findT s.topics sb.tid with
+    | none => {}
+    | some tp => match findN tp.chans sb.cid with
+      | none => {}
+      | some nc => match findE nc.ch.msgs id with
+        | some e => e.env
+        | none => {}
+
+/-- a delivery: the frame carries attempts, timestamp and body of the model's copy -/
+def applyDeliver (s : State) (op : Nsq.Model.ChanNsqd.Op) (k id : Nat) : State × String :=
+  let r := step s op
+  (r.1, match r.2 with
+    | .msg a => let e := envOfConn r.1 k id; s!"msg {Nsq.Model.Chan.wireAttempts a} {e.ts} {e.body}"
+    | o => showOut o)
 
 def apply (s : State) (op : Nsq.Model.ChanNsqd.Op) (sorted : Bool := false) : State × String :=
   let r := step s op
@@ -137,6 +164,14 @@ def stepLine (s : State) (line : String) : State × String :=
     | some k => apply s (.cls k) | _ => (s, "bad-op")
   | ["pub", t, sz] => match nat? t, nat? sz with
     | some t, some sz => apply s (.pub t sz) | _, _ => (s, "bad-op")
+  | ["pub", t, sz, ts, body] => match nat? t, nat? sz, int? ts, nat? body with
+    | some t, some sz, some ts, some body => apply s (.pub t sz ⟨ts, body⟩) | _, _, _, _ => (s, "bad-op")
+  | ["dpub", t, sz, d, ts, body] => match nat? t, nat? sz, nat? d, int? ts, nat? body with
+    | some t, some sz, some d, some ts, some body => apply s (.dpub t sz d ⟨ts, body⟩) | _, _, _, _, _ => (s, "bad-op")
+  | ["mpub", t, szs, tss, bodies] => match nat? t, natList szs, envs? tss bodies with
+    | some t, some szs, some es => apply s (.mpub t szs es) | _, _, _ => (s, "bad-op")
+  | ["mpubfail", t, szs, j, tss, bodies] => match nat? t, natList szs, nat? j, envs? tss bodies with
+    | some t, some szs, some j, some es => apply s (.mpubFail t szs j es) | _, _, _, _ => (s, "bad-op")
   | ["dpub", t, sz, d] => match nat? t, nat? sz, nat? d with
     | some t, some sz, some d => apply s (.dpub t sz d) | _, _, _ => (s, "bad-op")
   | ["mpub", t, szs] => match nat? t, natList szs with
@@ -147,7 +182,7 @@ def stepLine (s : State) (line : String) : State × String :=
     | some t, some id, some pris => apply s (.pumpTopic t id (kept == "1") pris) true
     | _, _, _ => (s, "bad-op")
   | ["deliver", k, id, now] => match nat? k, nat? id, int? now with
-    | some k, some id, some now => apply s (.deliver k id now) | _, _, _ => (s, "bad-op")
+    | some k, some id, some now => applyDeliver s (.deliver k id now) k id | _, _, _ => (s, "bad-op")
   | ["sdrop", k, id] => match nat? k, nat? id with
     | some k, some id => apply s (.sampleDrop k id) | _, _ => (s, "bad-op")
   | ["fin", k, id] => match nat? k, nat? id with
@@ -159,7 +194,7 @@ def stepLine (s : State) (line : String) : State × String :=
   | ["guard", k] => match nat? k with
     | some k => apply s (.guard k) | _ => (s, "bad-op")
   | ["deliverarmed", k, id, now] => match nat? k, nat? id, int? now with
-    | some k, some id, some now => apply s (.deliverArmed k id now) | _, _, _ => (s, "bad-op")
+    | some k, some id, some now => applyDeliver s (.deliverArmed k id now) k id | _, _, _ => (s, "bad-op")
   | ["req", k, id, d, now] => match nat? k, nat? id, nat? d, int? now with
     | some k, some id, some d, some now => apply s (.req k id d now) | _, _, _, _ => (s, "bad-op")
   | ["touch", k, id, now] => match nat? k, nat? id, int? now with
